@@ -11,16 +11,19 @@ SPEC = dict(
          "server) is fed explicit operation sequences over {set remote credentials, addRemoteCandidate(addr, prio), connectToHost, "
          "500-ms check timer tick, transaction time-out, sendDatagram, received datagram}; datagrams come from harness-owned sockets of the "
          "honest peer (2 addresses) and of an attacker (2 addresses) and are built with the real QXmppStunMessage encoder from the model's "
-         "alphabet {class request/indication/response/error} x {Binding/other} x {MESSAGE-INTEGRITY absent / valid under the local "
-         "password / valid under the remote password / wrong key / attribute length != 20} x USE-CANDIDATE x {no role attribute, "
+         "alphabet {class request/indication/response/error} x {Binding/other} x {integrity-relevant attribute LAYOUT, trailer built by hand in raw bytes: "
+         "any order of MESSAGE-INTEGRITY attributes (HMAC valid under the local / remote password, wrong key, length != 20), FINGERPRINT "
+         "(right / wrong CRC over the preceding bytes), unknown comprehension-optional attributes and an attribute whose length field "
+         "swallows the rest - e.g. FINGERPRINT followed by a MESSAGE-INTEGRITY with garbage or even the right key, two MESSAGE-INTEGRITY "
+         "attributes, MESSAGE-INTEGRITY inside a swallowed attribute; 37 such layouts systematically, random ones in the stream} x USE-CANDIDATE x {no role attribute, "
          "ICE-CONTROLLING, ICE-CONTROLLED} x PRIORITY x USERNAME x {transaction id of the component's latest check, guessed id}, plus "
          "non-STUN payloads. The component's timers are parked and driven explicitly (private slots through the meta-object system), "
          "zero-delay transmissions are flushed behind a marker datagram, so no real time enters. Observation per operation, compared "
          "with the Lean model: decode accepted, warnings (bad / missing integrity, role conflict), Binding responses written (to whom, echoing "
          "which id), connectivity checks sent (to whom, its own k-th transaction, USE-CANDIDATE), 'ICE pair changed to state' lines, "
          "'ICE pair selected ... (priority)' line, connected() signals, isConnected(), datagramReceived payloads, sendDatagram "
-         "destination. Explored: the defect witnesses; EVERY single datagram of a 108-symbol alphabet (148 thorough) from 8 base states "
-         "x both roles; every sequence of length 2 (quick) / 3 (thorough) over a 16-symbol alphabet from 3 base states x both roles; an "
+         "destination. Explored: the defect witnesses; EVERY single datagram of a 293-symbol alphabet (460 thorough) from 8 base states "
+         "x both roles; every sequence of length 2 (quick) / 3 (thorough) over a 20-symbol alphabet from 3 base states x both roles; an "
          "attacker datagram inserted at EVERY position of 4 honest negotiations played by the harness; 1500 (8000) seeded random sequences "
          "of 3..14 (3..24) operations, each followed by an unmodelled malformed tail (single-bit flips of authentic messages, STUN-shaped "
          "random attributes, random bytes). A sequence is non-trivial when it yields >= 2 distinct observations. "
@@ -39,7 +42,7 @@ SPEC = dict(
         "(src/base/QXmppStun.cpp), tied to the code by the correspondence run",
         "translators/ice_prio.py (regex reader of candidatePriority and CandidatePair::priority; fails when the expression shape changes) "
         "for the constants in lean/Qx/Generated/IcePrio.lean",
-        "the abstraction of MESSAGE-INTEGRITY into five statuses: HMAC-SHA1 unforgeability without the key and 'local password != remote "
+        "the abstraction of the attribute list into a layout of MESSAGE-INTEGRITY (four statuses) / FINGERPRINT (good, bad) / other / overrunning attributes: HMAC-SHA1 unforgeability without the key and 'local password != remote "
         "password' are assumptions, not theorems (the byte-level decoder is property C14)",
         "Qt: QUdpSocket loopback delivery, QTimer, direct signal delivery, QMetaObject::invokeMethod on private slots; std::sort on the "
         "pair list behaving as a stable insertion sort for <= 16 elements (libstdc++)",
@@ -58,8 +61,12 @@ SPEC = dict(
         "modelled faithfully, theorem pair_priority_rfc is stated for the RFC range, theorem pair_priority_wraps_beyond_rfc_range documents it",
         "component ids 1..256 (RFC range); memory safety of the datagram path is sanitizer exploration, not a theorem",
     ],
-    level_text="Theorems, for every state and every history of the model: EVERY unauthenticated STUN datagram (no MESSAGE-INTEGRITY, "
-               "wrong key, the session's other password, truncated attribute; any class, source, user name, role attribute, "
+    level_text="The model transcribes BOTH attribute walks as coded (pre-scan hasMessageIntegrity in handleDatagram: stops at FINGERPRINT; "
+               "QXmppStunMessage::decode: verifies the first MESSAGE-INTEGRITY, stops successfully at FINGERPRINT) and the theorems are about "
+               "their conjunction (accepted_means_verified, mi_after_fingerprint_counts_as_absent, decode_alone_never_looks_behind_fingerprint). "
+               "Theorems, for every state and every history of the model: EVERY unauthenticated STUN datagram (no protecting "
+               "MESSAGE-INTEGRITY - none, behind a FINGERPRINT, swallowed -, wrong key, the session's other password, truncated attribute; any "
+               "attribute layout, class, source, user name, role attribute, "
                "USE-CANDIDATE, transaction id) leaves the component state unchanged and is never answered "
                "(unauthenticated_traffic_no_effect, unauthenticated_datagram_dropped); histories of such datagrams have no effect and "
                "erasing them from ANY history changes neither the final state nor any output except the integrity warnings "
